@@ -122,7 +122,7 @@ func c03Alphabet(c *vfCtx) []c03Op {
 	vals := []string{"a", "b", "[TestA - 2]"}
 	if c.thorough() {
 		tests = append(tests, "TestB")
-		vals = append(vals, "---")
+		vals = append(vals, "x\n\n[TestA - 2]\ny")
 	}
 	var ops []c03Op
 	for _, t := range tests {
@@ -226,6 +226,23 @@ func c03BFS(c *vfCtx) {
 	}
 }
 
+// c03Shadow: entries whose values contain a blank line followed by the id of ANOTHER slot, then that slot is
+// created, matched, updated (the look-up and the rewrite must agree on where entries start).
+func c03Shadow(emit func(c03Case)) {
+	for _, v := range []string{"head\n\n[TestA - 2]\ntail", "[TestA - 2]", "\n[TestA - 2]\n---\n[TestA - 3]", "x\n[TestB - 1]\n\n[TestA - 2]"} {
+		for _, upd := range []bool{false, true} {
+			ops := []c03Op{
+				{Op: "call", Test: "TestA", Val: v}, {Op: "call", Test: "TestA", Val: "second"}, {Op: "call", Test: "TestB", Val: "b1"}, {Op: "call", Test: "TestA", Val: "third"},
+				{Op: "end", Test: "TestA"}, {Op: "end", Test: "TestB"},
+				{Op: "call", Test: "TestA", Val: v}, {Op: "call", Test: "TestA", Val: "second CHANGED", Upd: upd}, {Op: "call", Test: "TestB", Val: "b1 CHANGED", Upd: upd}, {Op: "call", Test: "TestA", Val: "third"},
+				{Op: "end", Test: "TestA"}, {Op: "end", Test: "TestB"},
+				{Op: "call", Test: "TestA", Val: v}, {Op: "call", Test: "TestA", Val: "second CHANGED"}, {Op: "call", Test: "TestB", Val: "b1 CHANGED"},
+			}
+			emit(c03Case{Ops: ops})
+		}
+	}
+}
+
 // c03TwoFiles: one test alternating between two snapshot files, executed three times.
 func c03TwoFiles(emit func(c03Case)) {
 	for _, pattern := range [][]string{{"", "g"}, {"g", ""}, {"", "g", "g", ""}, {"", "", "g", "g", "g"}, {"g", "g", ""}} {
@@ -311,7 +328,7 @@ func init() {
 			"every transition executed on the real code and compared with the model (outcome, addressed slot, parse(disk)); plus linear families with 10..12 ordinals; " +
 			"non-trivial = distinct histories with two tests, an End, an update or a special value"
 		c03BFS(c)
-		lin := func(emit func(c03Case)) { c03Linear(c, emit); c03TwoFiles(emit) }
+		lin := func(emit func(c03Case)) { c03Linear(c, emit); c03TwoFiles(emit); c03Shadow(emit) }
 		lin(func(cs c03Case) {
 			if !c.mine() {
 				return
